@@ -183,9 +183,68 @@ def _restore_globals(snap):
     return dirty
 
 
+_LIBSTATE = {}
+
+
+def _library_containers():
+    """(module name, attribute) -> module-level dict / list / set of the library under test"""
+    out = {}
+    for mname, mod in list(sys.modules.items()):
+        if mod is None or not (mname == 'xdoctest' or mname.startswith('xdoctest.')):
+            continue
+        for attr, val in list(vars(mod).items()):
+            if attr.startswith('__'):
+                continue
+            if type(val) in (dict, list, set):
+                out[(mname, attr)] = val
+    return out
+
+
+def reset_library_state():
+    """Every case starts from the module-level state the library had when it was first imported into this
+    process: containers at module level (caches such as directive._MODNAME_EXISTS_CACHE) are restored in
+    place and functools caches are cleared.  What one case leaves behind can then not reach the next case of
+    the same worker, so a worker observes for a case exactly what a fresh replay of that case observes;
+    state carried *inside* one history is untouched (that is what the histories explore)."""
+    import copy
+    import functools
+    conts = _library_containers()
+    for key, val in conts.items():
+        if key not in _LIBSTATE:
+            try:
+                _LIBSTATE[key] = copy.deepcopy(val)
+            except Exception:
+                _LIBSTATE[key] = None
+            continue
+        orig = _LIBSTATE[key]
+        if orig is None or val == orig:
+            continue
+        try:
+            fresh = copy.deepcopy(orig)
+            if isinstance(val, dict):
+                val.clear(); val.update(fresh)
+            elif isinstance(val, list):
+                val[:] = fresh
+            else:
+                val.clear(); val.update(fresh)
+        except Exception:
+            pass
+    for mname, mod in list(sys.modules.items()):
+        if mod is None or not (mname == 'xdoctest' or mname.startswith('xdoctest.')):
+            continue
+        for attr, val in list(vars(mod).items()):
+            cc = getattr(val, 'cache_clear', None)
+            if cc is not None and callable(cc) and hasattr(val, 'cache_info'):
+                try:
+                    cc()
+                except Exception:
+                    pass
+
+
 def run_one(spec, hist):
     """Run a single case with timeout + hygiene.  Always returns a result dict."""
     snap = _snapshot_globals()
+    reset_library_state()
     t0 = time.time()
     # the REPL variable '_' (set in builtins by sys.displayhook whenever a part is compiled in 'single'
     # mode) must not travel from one case to the next inside a worker
@@ -309,6 +368,8 @@ def untuple(x):
 def run_check(prop, tier, specs, level, extra_assumptions=()):
     t_start = time.time()
     bind_repo()
+    import xdoctest.directive, xdoctest.runner, xdoctest.core, xdoctest.plugin      # noqa: make the snapshot complete
+    reset_library_state()          # snapshot of the pristine module-level state, inherited by the forked workers
     findings = load_findings()
     for s in specs:
         s.key = s.prop + ':' + s.name
@@ -560,6 +621,8 @@ def replay_file(path, specs_for, sigs_only=False):
     blob = json.load(open(path))
     prop = blob['property']
     bind_repo()
+    import xdoctest.directive, xdoctest.runner, xdoctest.core, xdoctest.plugin      # noqa
+    reset_library_state()
     spec = None
     for s in specs_for(prop, blob.get('tier', 'quick')):
         if s.name == blob['spec']:
